@@ -440,6 +440,7 @@ Verdict interpret(const Case & c, RunInfo & info)
                     break;
                 }
                 std::string bytes = p.impl[b]->dump();
+                digest("history", bytes.data(), bytes.size());   // dump bytes are an observable result (C15: every byte must be initialised)
                 std::unique_ptr<ISlot> n = with_type(p.impl[b]->type, [&](auto tag) -> std::unique_ptr<ISlot> {
                     using B = typename decltype(tag)::type;
                     std::istringstream is(bytes);
